@@ -4,6 +4,7 @@ import M3d.Model.CollideXf
 import M3d.Model.CollideCone
 import M3d.Model.CollideQuery
 import M3d.Model.CollideScale
+import M3d.Model.CollideAxis
 /-!
 Line-protocol handler for C07.  Core-only; runs the models of `M3d/Model/Collide.lean`
 * at `Rat` for the `…x` kinds (exact mode: dyadic inputs on which every Go float operation is exact),
@@ -23,6 +24,8 @@ Kinds (see notes/C07.md):
   segx   a b c s0 s1                  Triangle.SegmentCollision                             (Rat)
   sphereb c r o d | trib a b c o d | seg2b s0 s1 o d | rectb lo hi o d | planeb n bias o d |
   circleb n c r o d | cylb p1 p2 r o d | capb p1 p2 r o d | coneb tip base r o d           (Float bits)
+  cylx    p1 p2 r o d                 Cylinder.RayCollisions / FirstRayCollision / Contains(o) for a ray exactly along
+                                      the axis: the specification `cylAxisSpec` (Rat, spec)
   tballx  xf3 n (a b c)… ctr r        TransformCollider(t, triangles).SphereCollision = the IMAGE triangles
                                       are within r of ctr                                   (Rat, spec)
   tsphx   xf3 center R ctr r          TransformCollider(t, Sphere).SphereCollision = the image sphere meets
@@ -254,6 +257,31 @@ def pSegs : Nat → P Q (List (V2 Q × V2 Q))
       let (b, ws) ← pV2 parseRat ws
       let (rest, ws) ← pSegs n ws
       some ((a, b) :: rest, ws)
+
+/-- `cylx`: a ray exactly along the axis of a cylinder (`d = v·k` for the unit axis `v = (P2-P1).Normalize()`, checked
+here): the answer is the specification `cylAxisSpec` (`M3d.C07.cylinder_axis_rays`: it is what `Cylinder.RayCollisions`
+computes, its parameters are exactly the `t ≥ 0` with the ray point on the surface, and the count is odd iff the origin
+is inside), refused if the transcription `cylHits` of `Cylinder.RayCollisions` at `Rat` differs; then
+`Cylinder.Contains(origin)` (`M3d.C07.cylinder_contains_iff`). -/
+def hCylAxis (ws : List String) : Option String := do
+  let (p1, ws) ← pV3 parseRat ws
+  let (p2, ws) ← pV3 parseRat ws
+  let (r, ws) ← pScalar parseRat ws
+  let (o, ws) ← pV3 parseRat ws
+  let (d, ws) ← pV3 parseRat ws
+  if !ws.isEmpty then none
+  let v := (p2.sub p1).normalize sqrtQ
+  let len := (p2.sub p1).norm sqrtQ
+  let k := d.dot v
+  let dk := v.scale k
+  -- the hypotheses of the theorem: unit axis, radius > 0, direction exactly `v·k`, `k ≠ 0`
+  if v.dot v != 1 || r ≤ 0 || k == 0 || dk.x != d.x || dk.y != d.y || dk.z != d.z then none
+  let spec := cylAxisSpec p1 v len r o k
+  let model := cylHits sqrtQ epsQ p1 p2 r o d
+  let col : Collider (V3 Q × V3 Q) (Hit Q) := ofHits (fun _ => spec) (fun _ => minFirst Hit.t spec none)
+  some (if spec.map (showHit showRat) != model.map (showHit showRat) then
+      s!"MODEL-NE-SPEC spec={spec.map (showHit showRat)} model={model.map (showHit showRat)}"
+    else showRun (showHit showRat) col (o, d) ++ " I " ++ boolStr (cylContains sqrtQ p1 p2 r o))
 
 /-- soup of triangles: the joined collider with an always-admitting prefilter is the brute-force answer
 (`joined_contract`: concatenation, sum, minimum); callbacks are printed in canonical order. -/
@@ -679,6 +707,7 @@ def handleAll (ws : List String) : Option String :=
   | "planeb" :: rest => hPlane Float.sqrt epsF floatOfHex hexOfFloat rest
   | "circleb" :: rest => hCircle Float.sqrt epsF floatOfHex hexOfFloat rest
   | "cylb" :: rest => hCyl Float.sqrt epsF floatOfHex hexOfFloat rest
+  | "cylx" :: rest => hCylAxis rest
   | "capb" :: rest => hCap Float.sqrt floatOfHex hexOfFloat rest
   | "coneb" :: rest => hCone Float.sqrt epsF tolF floatOfHex hexOfFloat rest
   | _ => none
